@@ -17,7 +17,7 @@ Here are {len(pids)} semantic properties of murex that should always hold:
 
 {txt}
 
-Task: for EACH property above produce {n} source change(s) to murex (each a separate, independent patch against the worktree's HEAD) that BREAKS that property while (a) the project still compiles (`go build ./...`), and (b) the project's existing test suite still passes. Each change should be realistic (the kind of bug a developer could introduce in a refactor or feature change: an off-by-one, a dropped condition, a wrong variable, a missing lock/reset, a mishandled special case) and should need something SPECIFIC to manifest (prefer SUBTLE changes: boundary values, rarely-taken branches, error paths, state carried across several operations, interactions between two features) — a particular input, a multi-step sequence of operations, a particular interleaving/timing, a crash or fault at a particular point, or two cooperating sites that each look fine alone — NOT something that ordinary use would expose at once (if every basic use of the feature breaks, the existing tests would fail and the change is too blunt). Prefer changing the logic in the files the anchors name (or their direct collaborators; line numbers in the anchors may have drifted). Do not change tests. Do not add build tags. Ignore files named verif_*.go / *_verif.go (test instrumentation that is compiled out).
+Task: for EACH property above produce {n} source change(s) to murex (each a separate, independent patch against the worktree's HEAD) that BREAKS that property while (a) the project still compiles (`go build ./...`), and (b) the project's existing test suite still passes. Each change should be realistic (the kind of bug a developer could introduce in a refactor or feature change: an off-by-one, a dropped condition, a wrong variable, a missing lock/reset, a mishandled special case) and should need something SPECIFIC to manifest (prefer SUBTLE changes: boundary values, rarely-taken branches, error paths, state carried across several operations, interactions between two features) — a particular input, a multi-step sequence of operations, a particular interleaving/timing, a crash or fault at a particular point, or two cooperating sites that each look fine alone — NOT something that ordinary use would expose at once (if every basic use of the feature breaks, the existing tests would fail and the change is too blunt). Prefer changing the logic in the files the anchors name or — better — in their collaborators (helpers, callers, the data types they rely on); line numbers in the anchors may have drifted. Think of at least three candidate changes per property and pick the LEAST obvious one that still passes the existing suite (avoid the first idea that comes to mind: an off-by-one on the main bounds check or dropping the main condition is what everybody tries first). Do not change tests. Do not add build tags. Ignore files named verif_*.go / *_verif.go (test instrumentation that is compiled out).
 
 For each change also write a demonstration: a Go test file (placed where it compiles, e.g. next to the changed package, named verif_seed_demo_test.go) or a small shell script that runs murex code, that FAILS with the change and PASSES without it, showing the property violated on a concrete input/sequence.
 
